@@ -13,14 +13,38 @@ sys.path.insert(0, os.path.join(VERIF, "tools"))
 import seed as S   # noqa
 
 
+ROUND = ""
+
+
+def rebased_patch(tmp):
+    """git-style diff of the patched scratch copy against the current /repo working tree (so that `git -C /repo apply` works
+    after later fix: commits moved the context)."""
+    r = subprocess.run(["diff", "-ruN", "--exclude=__pycache__", "/repo/src", os.path.join(tmp, "src")], capture_output=True, text=True)
+    out = []
+    for line in r.stdout.splitlines(True):
+        if line.startswith("diff -ruN"):
+            continue
+        if line.startswith("--- /repo/src/"):
+            rel = line[len("--- /repo/"):].split("\t")[0].strip()
+            out.append("diff --git a/%s b/%s\n" % (rel, rel))
+            out.append("--- a/%s\n" % rel)
+        elif line.startswith("+++ "):
+            rel = "src/" + line[4:].split("\t")[0].strip().split("/src/", 1)[1]
+            out.append("+++ b/%s\n" % rel)
+        else:
+            out.append(line)
+    return "".join(out)
+
+
 def work(d):
     pid = d.split("/")[-2]
     n = d.split("/")[-1]
-    sid = "%s-%s" % (pid, n)
+    sid = "%s-%s%s" % (pid, ROUND, n)
     out = os.path.join(VERIF, "seeded", sid)
     os.makedirs(out, exist_ok=True)
-    for fn in ("patch.diff", "demo.py"):
-        shutil.copy(os.path.join(d, fn), out)
+    shutil.copy(os.path.join(d, "demo.py"), out)
+    if os.path.exists(os.path.join(d, "patch.diff")):
+        shutil.copy(os.path.join(d, "patch.diff"), os.path.join(out, "patch.orig.diff"))
     meta = json.load(open(os.path.join(d, "meta.json")))
     ver = {}
     if os.path.exists(os.path.join(d, "verify.json")):
@@ -33,6 +57,7 @@ def work(d):
     tmp = S.scratch(os.path.join(d, "patch.diff"))
     res = {}
     try:
+        open(os.path.join(out, "patch.diff"), "w").write(rebased_patch(tmp))
         for p in props:
             env = dict(os.environ, VERIF_EVIDENCE_DIR=os.path.join(tmp, "ev"))
             r = subprocess.run([os.path.join(VERIF, "check"), p, "--repo", tmp], capture_output=True, text=True, env=env)
@@ -46,7 +71,8 @@ def work(d):
         "summary": meta.get("summary"),
         "needs": meta.get("needs"),
         "files_changed": meta.get("files_changed"),
-        "origin": "independent sub-agent given only the property text and a scratch worktree",
+        "origin": "independent sub-agent given only the property text and a scratch worktree" + (
+            " (round 2: additionally told which mechanisms round 1 had already explored)" if ROUND else ""),
         "verified": {"how": "tools/seed.py verify: patch applied to a scratch copy of /repo; demo.py run without/with the patch; full test-suite run with the patch",
                      "demo_clean_rc": ver.get("demo_clean_rc"), "demo_patched_rc": ver.get("demo_patched_rc"), "suite": ver.get("suite"), "valid": ver.get("valid")},
         "caught_by": {p: v["rules"] for p, v in res.items() if v["exit"] == 1},
@@ -58,8 +84,10 @@ def work(d):
 
 
 def main():
+    global ROUND
     dirs = []
-    root = "/tmp/seedout"
+    root = sys.argv[1] if len(sys.argv) > 1 else "/tmp/seedout"
+    ROUND = sys.argv[2] if len(sys.argv) > 2 else ""
     for pid in sorted(os.listdir(root)):
         pd = os.path.join(root, pid)
         if not os.path.isdir(pd):
